@@ -367,6 +367,9 @@ let handle (x : Sexp.t) : string =
                                       ^ (match usebefore with Some n -> " [script uses " ^ n ^ " before declaring it]" | None -> ""))
        | Sexp.List (Sexp.Atom "panic" :: Sexp.Str loc :: rest), _ ->
            res "fail" ("pdr:panic@" ^ loc ^ qual) ("panic instead of a verdict: " ^ (match rest with Sexp.Str m :: _ -> m | _ -> ""))
+       | Sexp.Atom "unknown", Unsafe d when int_of_nat d > 1000 ->
+           (* recorded finding: the shortest counterexample is deeper than MAX_FRAMES = 1000 (theorem C10_pdr_model_deep_unknown_sys) *)
+           res "fail" "pdr:unknown:frame-limit" "Unknown instead of Fail: the shortest counterexample needs more than MAX_FRAMES = 1000 frames"
        | Sexp.Atom "unknown", _ -> res "fail" ("pdr:unknown" ^ qual) "Unknown instead of a verdict"
        | Sexp.Atom "timeout", _ -> res "fail" ("pdr:timeout" ^ qual) "no answer within the watchdog"
        | Sexp.List (Sexp.Atom "crash" :: _), _ -> res "fail" ("pdr:crash" ^ qual) ("worker died: " ^ Sexp.to_string impl)
